@@ -87,6 +87,13 @@ def magnitude(iso):
     return "<1e-3" if m < 1e-3 else (">1e4" if m > 1e4 else "1e-3..1e4")
 
 
+def dbg(msg):
+    import os
+    import sys
+    if os.environ.get("VERIF_DEBUG"):
+        print("[c15] " + msg, file=sys.stderr, flush=True)
+
+
 def parallel_oracle(module, records, chunk, jobs=4):
     """several single-threaded TLC oracle runs side by side (ASSUME evaluation is single-threaded)"""
     from concurrent.futures import ThreadPoolExecutor
@@ -126,6 +133,7 @@ def main(tier, seed):
         return out
 
     t_mc = time.time()
+    dbg(f"model checking + cover done in {t_mc - t_start:.1f}s")
     # ---- B. replay
     scen = dict(SCEN)
     if thorough:
@@ -202,8 +210,10 @@ def main(tier, seed):
                 v.mag = magnitude(isos[0])
                 v.outcome, v.res, v.msg = run_entry(entry, isos)
                 variants.append(v)
+            dbg(f"{entry} {names}: {len(plan)} variants, t={time.time() - t_mc:.1f}s")
     run.set(base_runs=nbase)
     t_runs = time.time()
+    dbg(f"real runs done: {len(variants)} variants in {t_runs - t_mc:.1f}s")
 
     # ---- what the specification expects of every run
     recs = []
@@ -212,6 +222,7 @@ def main(tier, seed):
         recs.append({"k": "run", "an": v.an, "role": v.role, "sS0": v.sS0, "sR0": v.sR0, "sS": v.sS, "sR": v.sR, "keys": [k for k in keys]})
     answers = parallel_oracle("AccessPlanOracle", recs, 600)
     t_oracle = time.time()
+    dbg(f"plan oracle done in {t_oracle - t_runs:.1f}s")
 
     limit = 40 if thorough else 12
     trecs = []
